@@ -24,6 +24,9 @@ def is_hash_ty(t):
     return t.startswith("std::collections::HashMap<") or t.startswith("std::collections::HashSet<")
 
 
+LOOP_ADAPTORS = {"iter", "into_iter", "iter_mut", "chain", "cloned", "copied", "enumerate", "rev", "by_ref", "keys", "values", "into_keys", "into_values", "drain"}
+
+
 def classify(n, ps):
     top = n
     for anc, key in reversed(ps):
@@ -60,16 +63,23 @@ def classify(n, ps):
         return "for_each:other", top
     if last in ("sorted", "sorted_by_key", "sorted_by", "sorted_unstable"):
         return "sorted", top
-    # plain loop over the collection
+    # plain loop over the collection (possibly through adaptors: `for x in map.into_iter().chain(other)`)
     for anc, key in reversed(ps):
         if anc.get("k") == "Match" and "ForLoop" in anc.get("source", ""):
-            body_calls = []
-            has_assign = False
-            for m, mps in F.walk(anc):
-                if m.get("k") in ("Assign", "AssignOp"):
-                    has_assign = True
+            has_assign = any(m.get("k") in ("Assign", "AssignOp") for m, _ in F.walk(anc))
+            calls = [c["method"] for c, _ in F.calls(anc) if c.get("k") == "MethodCall" and not c.get("exp")]
+            mutating = {"extend", "push", "push_back", "push_front", "insert", "remove", "pop", "clear", "append", "entry", "or_insert", "or_insert_with", "retain", "truncate", "swap", "sort", "set_data", "add_data", "union"}
+            muts = [c for c in calls if c in mutating]
+            if muts and set(muts) <= {"extend", "push", "push_back"} and not has_assign:
+                return "for_each:extend", anc  # the same consumer as `.for_each(|x| vec.push/extend(..))`
             return ("loop:assigns" if has_assign else "loop:calls-only"), anc
+        if anc.get("k") == "MethodCall" and key == "recv" and anc["method"] in LOOP_ADAPTORS:
+            continue
+        if anc.get("k") == "Call" and key == "args" and (F.callee_def(anc) or "").endswith("into_iter") and anc.get("exp"):
+            continue
         if anc.get("k") in ("Call", "MethodCall") and key != "recv":
+            break
+        if anc.get("k") in ("Call", "MethodCall"):
             break
     return "other:" + (last or "bare"), top
 
